@@ -14,5 +14,7 @@ CONSTANTS
   CloseSendOnExit = FALSE
   CancelOnReturn = TRUE
   FmsgWakesOnLatch = TRUE
+  NetCap = 0
+  HandoffTimeout = FALSE
 INVARIANTS InOrder NoUnknownForwarded NoStuck EveryScriptEnds
 CHECK_DEADLOCK FALSE
